@@ -14,9 +14,8 @@ CLAIMS = {
  "C03": ("5 (C03)", "xread() fills whole chunks under every read() fragmentation; xwrite() transfers every byte once under every short-write pattern; in_granul == level*100000; "
          "the real reorder queue hands blocks to the writer in position order with the combined CRC restarted per stream; rely/guarantee steps of the real tasks keep the monitor invariant for 1..3 workers.",
          "Assumes C12 (shared state only touched under the scheduler lock). Codec calls are stubs in the scheduler queries. Non-nested overlaps of running tasks are covered only through the rely/guarantee argument, not explored."),
- "C04": ("5 (C04)", "collect() is proved equal to a byte-wise greedy-packing reference for one call from ANY valid pre-state (buffers of 0..2 symbolic bytes, capacity symbolic), INV is inductive, "
-         "and the in-line fast path is checked for every byte-equality pattern of 5-byte buffers; chunk size == block capacity; hence blocks and splits of any length by composition.",
-         "Capacity explored 1..9 bytes (symbolic), not 100000..900000; a run reaching 259 inside ONE call is outside; do_collect()/do_collect_seq() glue is covered only by the RG steps with a stub collect()."),
+ "C04": ("5 (C04)", "collect() is proved equal to a byte-wise greedy-packing reference for one call from ANY valid pre-state (buffers of 0..2 symbolic bytes, capacity symbolic), INV is inductive, the in-line fast path is checked for every byte-equality pattern of 5-byte buffers and the long-run patterns of 6/7 bytes; chunk size == block capacity; default mode: each piece is collected by a fresh encoder of the level's capacity from where the previous block stopped; --sequential: an unfinished block is continued with the next piece; hence blocks and splits of any length by composition.",
+         'Capacity explored 1..9 bytes (symbolic), not 100000..900000; a run reaching 259 inside ONE call and 3-byte buffers from arbitrary pre-states are outside; the end-of-input flush of the sequential collector is not covered.'),
  "C05": ("5 (C05)", 'Inductive steps over the real decoder, each against a strict reference and in both directions: symbol map buckets, table/selector counts, every selector, every 6-bit delta window and table start (strict bzip2 rule), decoding tables usable iff Kraft-complete + canonical symbol lookup, one symbol of the MTF-value loop (zero runs, run flush, block overflow, empty block, primary index), inverse BWT, emit() (missing run length, split-independence, resume states); parse() against the stream grammar from every grammar position (magic, level digit, CRC capture, combined CRC, stream CRC for all values, byte alignment, trailing-garbage rule); expand.c do_reorder() (declared size, block CRC for all values, decoder status) and do_parse() end-of-input padding rule.',
          'Scaled constants in several queries (code length 4..6, start width 2..3, block size 4, 40 selectors, slide 512). NOT covered: mtf_one() on a used sliding list, the fast-path copy of the symbol loop, randomised-block derandomisation beyond byte 617, composition across several symbols in one call.'),
  "C06": ("5 (C06)", 'Same obligations as C05 read in the accepting direction: every strictly valid bucket / selector / delta window / header sequence / complete table / symbol / block is accepted and decoded as the reference says; the two documented rejections are asserted as rejections.',
@@ -27,19 +26,18 @@ CLAIMS = {
          "delta stage, decoding tables + symbol lookup, parser, collect(), xread/xwrite, format sniffing, do_reorder/do_parse of expand.c, the compression tasks and heap helpers - for all inputs inside each harness's bound.",
          "Only the code those harnesses reach, within their bounds: divbwt.c (sort stacks), the fast decoding path, mtf_one(), decode(), transmit() and generate_prefix_code() are NOT covered. Pointer-overflow is not checked; "
          "a decision on uninitialised memory would show only as a functional failure. Schedules are not explored."),
- "C09": ("5 (C09)", "emit() gives the same bytes/verdict/CRC wherever up to two output-buffer boundaries fall; xwrite() with fd -1 (-t) counts but writes nothing; parse() and the delta stage are resumable at every suspension point (inductive steps from arbitrary suspended states).",
-         "retrieve()'s other suspension points (bitmap, selectors, prefix codes), attach/detach across input blocks and do_emit() are not covered; schedules only through the assumption C12."),
+ "C09": ("5 (C09)", 'emit() gives the same bytes/verdict/CRC wherever up to two output-buffer boundaries fall, and one emit() call from each of the six resume states agrees with a resumable reference incl. the state left behind (inductive); xwrite() with fd -1 (-t) counts but writes nothing; do_reorder() treats -t like a real output; parse(), the bitmap/selector/delta stages and the MTF-value loop are resumable one word at a time (inductive steps from arbitrary suspended states); detach() positions identify absolute bit positions; the end-of-input padding rule does not depend on where the parser stopped.',
+         "attach() across several input blocks and do_emit()'s buffer chaining are covered only by the RG steps with stub codecs; schedules only through the assumption C12."),
  "C10": ("5 (C10)", "Step properties over the real expand.c code with a scan() stub that may report a candidate at ANY bit position: a candidate at or before the parser's position creates nothing; a candidate ahead becomes one speculative job recorded under its bit position; "
          "when the parser finds a block it discards every record it has passed (finished ones released, unfinished ones marked not legitimate), confirms the record at exactly its own bit position and otherwise starts its own retrieve job; do_reorder() drops a block found before the expected position and "
          "hands a block to the writer only at the position the parser queued; detach() positions identify absolute bit positions; plus the scanner/parser unit lemmas (C14, parse steps).",
          "Step-wise, not a whole-run exploration: do_retrieve()'s legitimacy bookkeeping and the interplay of several running tasks are NOT covered; 'fails exactly when the sequential decoding fails' is covered only through C05's steps. Codec calls are stubs; candidates on record <= 1 (quick) / 3 (thorough)."),
- "C11": ("5 (C11)", "Rely/guarantee steps over the real compression tasks (collect, transmit, reorder, write-complete, input-available): from any state satisfying the monitor invariant (capacities, conservation of work units / output slots / input blocks) each task re-establishes it at every lock release; "
-         "termination guard implies all queues empty and all slots returned; real heap helpers keep heap order; writer receives blocks in stream order.",
-         "Compression only; the decompression scheduler (expand.c) is NOT covered. Deadlock-freedom/termination is not proved (only the invariant and the termination guard). Assumes C12. Worker count 1..3."),
- "C13": ("5 (C13)", "Mechanism, not RSS: set_memory_constraints() yields slot totals <= 16w+2 and buffer sizes <= 1 MiB for every worker count 1..65535/level/mode; the compression scheduler conserves slots (RG steps), so buffers in flight are bounded by the totals.",
-         "RSS itself is not observable by this technique; per-block allocations of the decompressor (do_emit) are not covered."),
- "C14": ("5 (C14)", "mini_dfa == KMP automaton of the 48-bit pattern for all 48x2 transitions; big_dfa == 8 mini steps for all 49x256; scan() == first complete occurrence (48+32 bits) at/after the skip point, exact end position, on all streams of <=32 live bits + 2 words (3 in the thorough tier).",
-         "Blocks longer than the bound repeat the word loop (finite automaton). Skip distances that skip a whole word AND still find a pattern need >= 4 words: thorough tier only. make-scantab.pl itself is not encoded."),
+ "C11": ("5 (C11)", 'Rely/guarantee steps over the real tasks of BOTH schedulers: from any state satisfying the monitor invariant (conservation of work units, output slots and input pieces, job queues within capacity) every task of compress.c (collect, collect_seq, transmit, reorder, write-complete, input-available) and of expand.c (parse, scan, retrieve, emit, reorder, write-complete) re-establishes it at every lock release, with the state re-havocked at every lock acquisition; the transmit reservation rule (last two slots only for the block at the current stream position); termination guards imply all queues empty and all slots returned; real heap helpers keep heap order; the writer receives blocks in stream order; only the parser and the reorder task may end a run with a data error.',
+         'Deadlock-freedom / termination is NOT proved (only safety invariants, the reservation rule and the termination guards). For expand.c the bounds of unord_q, order_q, scan_q and input_q are not covered (they need a relational invariant over speculative jobs). Assumes C12. Worker count 1..3 (compress) / 1..2 (expand); codec calls are stubs.'),
+ "C13": ("5 (C13)", "Mechanism, not RSS: set_memory_constraints() yields slot totals <= 16w+2 and buffer sizes <= 1 MiB for every worker count 1..65535/level/mode; both schedulers conserve work units and output slots (RG steps), so jobs and buffers in flight are bounded by those totals; every allocation of a decompression task is bounded by a constant plus one output buffer; the retriever state is released exactly once per block; an accepted block's buffer always goes to the writer (which frees it), also with -t.",
+         'RSS itself is not observable by this technique; the encoder/decoder working buffers are stubs in the scheduler queries (their sizes are constants of the level); input-slot accounting of the reader thread is not covered.'),
+ "C14": ("5 (C14)", 'mini_dfa == KMP automaton of the 48-bit pattern for all 48x2 transitions; big_dfa == 8 mini steps for all 49x256; scan() == first complete occurrence (48+32 bits) at/after the skip point, exact end position, on all streams of <=32 live bits + 2 and + 4 words (3 and 5 in the thorough tier); the `goto again` loop is unwound statically and the absence of a third traversal is proved.',
+         'Blocks longer than the bound repeat the word loop (finite automaton). make-scantab.pl itself is not encoded; the generated header is what runs.'),
  "C15": ("5 (C15)", "parse() compares stored and computed stream CRC for ALL values at every grammar position and captures exactly the 32 header bits as the block CRC; do_reorder() compares block CRC and stored CRC for ALL values (solver query, not bit-flip sampling); combined CRC fold checked on both the compressor and the parser side; emit()'s CRC is the CRC of the emitted bytes.",
          'Worker count only through C11/C12 (assumed); that every block reaches do_reorder() is scheduler liveness (not covered).'),
  "C16": ("5 (C16)", "Real main.c + signals.c under a symbolic OS with a failure switch on EVERY system-call execution, SIGINT/SIGTERM/sub-thread failures arriving in halt(), and the data-safety predicate asserted after every mutating call (SIGKILL): input intact or complete closed output at every instant; no partial output after exit 1 / death by signal.",
